@@ -37,8 +37,20 @@ class MemoryLogHandler(logging.Handler):
 _handler = None
 
 
+# graph_minimizer sets the process-wide recursion limit to 10000 at import. Some compiler-produced routine sets send
+# the decompiler's writers into unbounded mutual recursion (if_start -> block -> label_jump -> if_start ...) whose
+# cost per level grows, so that the RecursionError - which convert() turns into the SsbScript fallback - arrives only
+# after minutes. That is a pure-function pathology outside the claimed properties; simulated processes therefore run
+# with a lower limit (an environment setting, identical for references and runs), far above what the generated
+# inputs (nesting <= 4) legitimately need.
+SIM_RECURSION_LIMIT = 1500
+
+
 def quiet_logging(level=logging.WARNING):
     global _handler
+    import sys
+
+    sys.setrecursionlimit(SIM_RECURSION_LIMIT)
     root = logging.getLogger()
     if _handler is None:
         _handler = MemoryLogHandler()
